@@ -116,7 +116,44 @@ type Sample struct {
 	Notes   []string   `json:"notes,omitempty"`
 }
 
+// summaryRun is the state of one solver-free enumeration of the paths of a pure callee
+// (DESIGN 2.2 "summaries of pure callees").
+type summaryRun struct {
+	prefix  []bool
+	pos     int
+	taken   []bool
+	conds   []*Term
+	decided map[string]bool
+	work    [][]bool
+}
+
+func (sm *summaryRun) decide(c *Term, key string) bool {
+	if b, ok := sm.decided[key]; ok {
+		return b
+	}
+	var d bool
+	if sm.pos < len(sm.prefix) {
+		d = sm.prefix[sm.pos]
+	} else {
+		d = true
+		alt := append(append([]bool{}, sm.taken...), false)
+		sm.work = append(sm.work, alt)
+	}
+	sm.pos++
+	sm.taken = append(sm.taken, d)
+	t := c
+	if !d {
+		t = tNot(c)
+	}
+	sm.conds = append(sm.conds, t)
+	sm.decided[key] = d
+	sm.decided[tNot(c).String()] = !d
+	return d
+}
+
 type Explorer struct {
+	summary    *summaryRun
+	Summaries  map[string]bool
 	z          *z3proc
 	work       [][]decision
 	cur        *pathState
@@ -380,6 +417,9 @@ func decide(c *Term) bool {
 	}
 	if b, ok := p.decided[key]; ok {
 		return b
+	}
+	if sm := e.summary; sm != nil {
+		return sm.decide(c, key)
 	}
 	record := func(d decision) bool {
 		p.pos++
